@@ -895,7 +895,7 @@ fn run_session(folder: &std::path::Path, steps: &[Step], visible: [&str; 2]) -> 
 #[derive(Default)]
 struct Ctx {
     dirs: HashMap<(String, String), TempWorkspace>,
-    fresh: HashMap<(String, String, Option<String>, Option<String>), Obs>,
+    fresh: HashMap<(String, String, Option<String>, Option<String>, bool), Obs>,
     counts: BTreeMap<&'static str, u64>,
 }
 
@@ -1063,12 +1063,17 @@ fn check_history(
             ctx.count("b:histories slow twice (second run kept)", 1);
         }
     }
-    let fsteps = fresh_steps(&finals);
+    let mut fsteps = fresh_steps(&finals);
+    let settle = matches!(steps.last(), Some(Step::Idle(_)));
+    if settle {
+        fsteps.push(Step::Idle(IDLE_MS));
+    }
     let key = (
         disk.1.to_owned(),
         disk.2.to_owned(),
         finals[MAIN].clone(),
         finals[MOD].clone(),
+        settle,
     );
     let fresh = match ctx.fresh.get(&key).cloned() {
         Some(o) => {
@@ -1149,6 +1154,10 @@ enum Gaps {
     IdleAny,
     /// Exactly one idle gap, the others from {nothing, request}.
     IdleOne,
+    /// Every gap from {nothing, request}; after the last notification nothing or a request,
+    /// then 1.1 s without any message before the observation (the fresh server gets the
+    /// final texts, then the same 1.1 s): what a client sees once the server has settled.
+    Settle,
 }
 
 impl Gaps {
@@ -1157,17 +1166,30 @@ impl Gaps {
             Gaps::Plain => "plain",
             Gaps::IdleAny => "idle-any",
             Gaps::IdleOne => "idle-one",
+            Gaps::Settle => "settle",
         }
     }
     fn parse(s: &str) -> Gaps {
         match s {
             "idle-any" => Gaps::IdleAny,
             "idle-one" => Gaps::IdleOne,
+            "settle" => Gaps::Settle,
             _ => Gaps::Plain,
         }
     }
     /// All schedules for `d` notifications (d-1 gaps), in a fixed order.
     fn schedules(&self, d: usize) -> Vec<Vec<Gap>> {
+        if *self == Gaps::Settle {
+            // one more entry than there are gaps: what follows the last notification
+            let mut out = Vec::new();
+            if d == 0 {
+                return vec![vec![Gap::None]];
+            }
+            for code in 0..(1u64 << d) {
+                out.push((0..d).map(|k| if code >> k & 1 == 1 { Gap::Sync } else { Gap::None }).collect());
+            }
+            return out;
+        }
         let gaps = d.saturating_sub(1);
         let menu = [Gap::None, Gap::Sync, Gap::Idle];
         let k = if *self == Gaps::Plain { 2 } else { 3 };
@@ -1183,6 +1205,7 @@ impl Gaps {
                 Gaps::Plain => true,
                 Gaps::IdleAny => idles >= 1,
                 Gaps::IdleOne => idles == 1,
+                Gaps::Settle => unreachable!(),
             };
             if keep {
                 out.push(s);
@@ -1203,6 +1226,13 @@ fn interleave(notes: &[Step], schedule: &[Gap]) -> Vec<Step> {
             }
         }
         steps.push(n.clone());
+    }
+    if schedule.len() == notes.len().max(1) && (schedule.len() > notes.len().saturating_sub(1)) {
+        // a schedule with a trailing entry: settle before the observation
+        if schedule.last() == Some(&Gap::Sync) {
+            steps.push(Step::Sync);
+        }
+        steps.push(Step::Idle(IDLE_MS));
     }
     steps
 }
@@ -1299,6 +1329,7 @@ fn phase_b(d: usize, disks: &[usize], gaps: Gaps) -> Phase {
         Gaps::Plain => "a request or nothing between them".to_owned(),
         Gaps::IdleAny => "request / nothing / idle 1.1 s between them, at least one idle".to_owned(),
         Gaps::IdleOne => "exactly one idle 1.1 s between them, else request / nothing".to_owned(),
+        Gaps::Settle => "a request or nothing between them and after the last one, then 1.1 s of silence before the observation".to_owned(),
     };
     Phase::new(
         &format!("(b) histories of {d} notifications, {what}, disk {}", names.join(" ")),
@@ -1391,8 +1422,11 @@ impl Engine for C15 {
         }
         v.push(phase_b(3, &[0], Gaps::Plain));
         v.push(phase_b(3, &[1], Gaps::Plain));
+        v.push(phase_b(1, &all, Gaps::Settle));
         if tier == Tier::Thorough {
             v.push(phase_b(3, &[2], Gaps::Plain));
+            v.push(phase_b(2, &all, Gaps::Settle));
+            v.push(phase_b(3, &[0], Gaps::Settle));
             v.push(phase_b(2, &all, Gaps::IdleAny));
             v.push(phase_b(3, &[0], Gaps::IdleOne));
             v.push(phase_b(4, &[0], Gaps::Plain));
